@@ -86,6 +86,25 @@ pub fn run(input: &str, output: &str, trace: &str) -> Value {
                 }
                 sdgs
             }
+            "mixedcontent" => {
+                let pkg = pkgs.create_named_sub_element(ElementName::ArPackage, "p").unwrap();
+                let l2 = pkg.create_sub_element(ElementName::Desc).and_then(|d| d.create_sub_element(ElementName::L2)).unwrap();
+                let _ = l2.set_attribute_string(AttributeName::L, "EN");
+                let mut k = 0;
+                for (pos, p) in perm.iter().enumerate() {
+                    let s = p.as_str().unwrap();
+                    if let Some(txt) = s.strip_prefix("c:") {
+                        let _ = l2.insert_character_content_item(txt, pos);
+                    } else if s == "e:TT" {
+                        k += 1;
+                        let _ = l2.create_sub_element_at(ElementName::Tt, pos).and_then(|e| e.set_character_data(format!("t{k}")));
+                    } else {
+                        k += 1;
+                        let _ = l2.create_named_sub_element_at(ElementName::XrefTarget, &format!("x{k}"), pos);
+                    }
+                }
+                l2
+            }
             "idxnamed" => {
                 let pkg = pkgs.create_named_sub_element(ElementName::ArPackage, "cfg").unwrap();
                 let els = pkg.create_sub_element(ElementName::Elements).unwrap();
@@ -150,7 +169,17 @@ pub fn run(input: &str, output: &str, trace: &str) -> Value {
             }
         };
         let fixed = |p: &Element| -> Vec<String> {
-            if fam == "ordered" { p.sub_elements().map(|e| e.item_name().unwrap_or_default()).collect() } else { vec![] }
+            if fam == "ordered" {
+                p.sub_elements().map(|e| e.item_name().unwrap_or_default()).collect()
+            } else if fam == "mixedcontent" {
+                // every content item in place: text runs and inline elements
+                p.content().map(|c| match c {
+                    ElementContent::CharacterData(cd) => format!("c:{cd}"),
+                    ElementContent::Element(e) => format!("e:{}", e.element_name().to_str()),
+                }).collect()
+            } else {
+                vec![]
+            }
         };
         let fixedbefore = fixed(&parent);
         let (before, cbefore, subbefore) = keys_and_digests(&parent, &fam);
